@@ -124,8 +124,9 @@ Section Opaque.
       - exact Hq.
       - exact Hf. }
     unfold rt_url. fold oq of. rewrite Huser, Hpass, Hhost, Hport, Hdp, Hpath, Ho.
-    destruct oq, of; reflexivity.
-  Qed.
+    idtac "before final".
+    Time (destruct oq, of; reflexivity).
+  Time Qed.
 End Opaque.
 
 Print Assumptions roundtrip_opaque.
